@@ -163,6 +163,12 @@ func fill(rng *rand.Rand, v reflect.Value, o ValueOpts, tag reflect.StructTag, t
 		return
 	}
 	t := v.Type()
+	if o.Leaf != nil && t.Kind() != reflect.Struct {
+		if lv, ok := o.Leaf(rng, t, tag); ok {
+			v.Set(lv)
+			return
+		}
+	}
 	switch t.Kind() {
 	case reflect.Struct:
 		for i := 0; i < t.NumField(); i++ {
@@ -212,12 +218,6 @@ func fill(rng *rand.Rand, v reflect.Value, o ValueOpts, tag reflect.StructTag, t
 		}
 		v.Set(m)
 	default:
-		if o.Leaf != nil {
-			if lv, ok := o.Leaf(rng, t, tag); ok {
-				v.Set(lv)
-				return
-			}
-		}
 		fillLeaf(rng, v, o)
 	}
 }
